@@ -15,7 +15,7 @@ import (
 // TB5: closing-token widths in End().
 
 func ruleTB5() Rule {
-	return Rule{ID: "TB5", Kind: "agreement", Floor: 10,
+	return Rule{ID: "TB5", Kind: "agreement", Floor: 5,
 		Doc: "for every End() that returns field.shift(n), n equals the length of the spelling of the token the grammar (or the lexer's copy) stores in that field",
 		Run: func(c *Ctx, rr *core.RuleResult) {
 			gi := c.grammar("parser")
